@@ -16,6 +16,17 @@ func init() { props["C16"] = c16 }
 // boundaries of every field reach the UP4 plug-in, and every Write they cause is logged for validation against the P4Info.
 func c16(c *ctx) {
 	c16generator(c)
+	// ---- start-up writes (interfaces table) for access addresses and UE pools configured with host bits under a short prefix:
+	// an LPM match value carries no bit beyond its prefix length
+	for _, cf := range [][2]string{{"198.18.0.1/24", "10.60.0.0/16"}, {"198.18.7.9/16", "10.61.0.0/20"}, {"198.18.0.1/31", "10.62.0.0/24"}} {
+		w, err := newWorld(c, sysh.Opts{P4: true, P4Access: cf[0], Pool: cf[1], P4DefaultTC: 3})
+		if err != nil {
+			panic(err)
+		}
+		w.cfgLine()
+		w.start()
+		w.close()
+	}
 	r := c.rng
 	slices := []int{0, 15, 7, 1}
 	for k := 0; k < c.pick(4, 16); k++ {
